@@ -168,6 +168,13 @@ class PosePath3D(object):
         :param right_mul: whether to apply it right-multiplicative or not
         :param propagate: whether to propagate drift with RHS transformations
         """
+        s = lie.sim3_scale(t)
+        if right_mul and abs(s - 1.0) > 1e-12:
+            # Right-multiplied Sim(3): the scale never reaches the positions
+            # (P*T shifts them by R_p*t only). Apply the rigid part, so that
+            # the poses stay valid SE(3) also when the drift is propagated.
+            t = lie.se3(t[:3, :3] / s, t[:3, 3])
+            s = 1.0
         if right_mul and not propagate:
             # Transform each pose individually.
             self._poses_se3 = [np.dot(p, t) for p in self.poses_se3]
@@ -183,7 +190,6 @@ class PosePath3D(object):
                 self._poses_se3.append(self._poses_se3[j].dot(rel_poses[i]))
         else:
             self._poses_se3 = [np.dot(t, p) for p in self.poses_se3]
-        s = lie.sim3_scale(t)
         if abs(s - 1.0) > 1e-12:
             # Sim(3): the scale only applies to the positions, keep the
             # rotation blocks of the poses valid SO(3) matrices.
